@@ -30,3 +30,13 @@ package deployment
 //@ requires rc != nil && ctx != nil && rc.object != nil && rc.client != nil
 //@ ensures surge_raised_with_full_strategy: #Patch >= 1 ==> #setStrategy == 1
 //@ ensures at_most_one_write: #Patch <= 1
+
+// C11 (F18): Finalize reports success only after it has looked at the real workload: the Deployment whose readiness is
+// waited for is either the object the restoring Patch just returned or, on a retry (already restored), the workload
+// that was fetched for this reconcile - never an empty placeholder.
+//@ track waitAllUpdatedAndReady as waitReady
+//@ func (*realController).Finalize
+//@ props C11
+//@ requires rc != nil && release != nil && rc.object != nil && rc.client != nil
+//@ ensures waits_on_the_real_workload: #waitReady >= 1 && #Patch == 0 ==> #waitReady.arg0 == rc.object
+//@ ensures success_means_waited: result == nil && release.Spec.ReleasePlan.BatchPartition == nil ==> #waitReady == 1 && #waitReady.ret0 == nil
